@@ -93,6 +93,14 @@ func vhSameSet(list []string, reqs []vhReq, sel func(vhReq) bool) bool {
 	return ok
 }
 
+func vhAll(bs ...bool) bool {
+	r := true
+	for _, b := range bs {
+		r = vr.And(r, b)
+	}
+	return r
+}
+
 func vhAny(reqs []vhReq, sel func(vhReq) bool) bool {
 	any := false
 	for _, r := range reqs {
@@ -170,7 +178,7 @@ func VerifFRRK8sConfig(nsess, nadv0, order, kind int) {
 	vr.Assert(got, "no configuration handed to the controller")
 	// targets only this node
 	ml := cfg.Spec.NodeSelector.MatchLabels
-	vr.Assert(len(ml) == 1 && ml["kubernetes.io/hostname"] == "node-me" && len(cfg.Spec.NodeSelector.MatchExpressions) == 0, "the configuration does not target exactly this node")
+	vr.Assert(vhAll(len(ml) == 1, ml["kubernetes.io/hostname"] == "node-me", len(cfg.Spec.NodeSelector.MatchExpressions) == 0), "the configuration does not target exactly this node")
 	// every session appears as exactly one neighbor of the right router
 	seen := 0
 	var union []vhReq
@@ -192,7 +200,7 @@ func VerifFRRK8sConfig(nsess, nadv0, order, kind int) {
 			}
 			seen++
 			rreqs = append(rreqs, s.reqs...)
-			vr.Assert(nb.ASN == s.params.PeerASN && r.ASN == s.params.MyASN && nb.Port != nil && *nb.Port == s.params.PeerPort, "session parameters on the wrong neighbor")
+			vr.Assert(vhAll(nb.ASN == s.params.PeerASN, r.ASN == s.params.MyASN, nb.Port != nil, *nb.Port == s.params.PeerPort), "session parameters on the wrong neighbor")
 			all := func(vhReq) bool { return true }
 			vr.Assert(vhSameSet(nb.ToAdvertise.Allowed.Prefixes, s.reqs, all), "allowed prefixes are not exactly the requested ones (sorted, duplicate free)")
 			// communities
@@ -209,7 +217,7 @@ func VerifFRRK8sConfig(nsess, nadv0, order, kind int) {
 					vr.Assert(false, "a community nobody requested")
 					continue
 				}
-				vr.Assert(len(cp.Prefixes) > 0 && vhSameSet(cp.Prefixes, s.reqs, sel), "a community is not associated with exactly the prefixes that requested it")
+				vr.Assert(vhAll(len(cp.Prefixes) > 0, vhSameSet(cp.Prefixes, s.reqs, sel)), "a community is not associated with exactly the prefixes that requested it")
 			}
 			for _, want := range []struct {
 				name string
@@ -227,7 +235,7 @@ func VerifFRRK8sConfig(nsess, nadv0, order, kind int) {
 			for _, lp := range nb.ToAdvertise.PrefixesWithLocalPref {
 				v := lp.LocalPref
 				vr.Assert(v != 0, "an entry for local preference 0")
-				vr.Assert(len(lp.Prefixes) > 0 && vhSameSet(lp.Prefixes, s.reqs, func(r vhReq) bool { return r.lp == v }), "a local preference is not associated with exactly the prefixes that requested it")
+				vr.Assert(vhAll(len(lp.Prefixes) > 0, vhSameSet(lp.Prefixes, s.reqs, func(r vhReq) bool { return r.lp == v })), "a local preference is not associated with exactly the prefixes that requested it")
 			}
 			for _, v := range []uint32{100, 200} {
 				listed := false
@@ -267,7 +275,7 @@ func VerifFRRK8sPassword() {
 	}
 	vr.Assert(err == nil, "NewSession failed")
 	nb := last.Spec.BGP.Routers[0].Neighbors[0]
-	vr.Assert((nb.Password != "") == hasPw && (nb.PasswordSecret.Name != "") == hasRef, "password / secret reference not carried as given")
-	vr.Assert(!(nb.Password != "" && nb.PasswordSecret.Name != ""), "both password and secret reference set")
+	vr.Assert(vhAll((nb.Password != "") == hasPw, (nb.PasswordSecret.Name != "") == hasRef), "password / secret reference not carried as given")
+	vr.Assert(!vhAll(nb.Password != "", nb.PasswordSecret.Name != ""), "both password and secret reference set")
 	vr.Reach("password checked")
 }
